@@ -661,6 +661,8 @@ func (e *SpecEnv) call(n *ast.CallExpr) Val {
 				vn := e.frame.visitedName(r)
 				u.scalar(vn, "(Array "+u.D.SortOf(mt.Key())+" Bool)")
 				return Val{T: sel(u.hget(e.heap, vn), k.T), Typ: tBool}
+			case "countval", "countvalall":
+				return e.countval(id.Name, n)
 			case "strLitsIn":
 				// strLitsIn(s, "funcKey"): s equals one of the string constants occurring in the
 				// named function of the current package (mechanically extracted from its SSA)
@@ -1356,4 +1358,88 @@ func (e *SpecEnv) tablePkg(name *string) string {
 		}
 	}
 	return e.pkg.Path()
+}
+
+
+// countval(N, k, valexpr, v): the number of keys k already produced by the map iteration of loop N
+// for which the integer-valued valexpr (an expression of k) equals v.
+// countvalall(m, k, valexpr, v): the same count over all keys of the map m.
+//
+// Encoding. P is a fresh array with P[k] = valexpr(k) for every key (a definition by
+// comprehension, always consistent), and cnt(S, P, v) is the cardinality of {k in S | P[k] = v},
+// a mathematical function of its three arguments. What the solver is told about it are instances
+// of its defining equations only: it is never negative, it is 0 for the empty set, and - at a
+// recorded iteration step, where the visited set grows by exactly one new key k0 -
+// cnt(S + k0, P, v) = cnt(S, P, v) + (P[k0] = v ? 1 : 0) for every v. Values of P in different
+// program states are related by the solver through array extensionality.
+func (e *SpecEnv) countval(kind string, n *ast.CallExpr) Val {
+	u := e.u
+	if len(n.Args) != 4 {
+		sfail("%s(N|m, k, valexpr, v)", kind)
+	}
+	id, ok := n.Args[1].(*ast.Ident)
+	if !ok {
+		sfail("%s: second argument must be an identifier", kind)
+	}
+	var set string
+	var keyT types.Type
+	var step *mapStep
+	if kind == "countval" {
+		if e.frame == nil {
+			sfail("countval() outside a function body")
+		}
+		lit, ok := n.Args[0].(*ast.BasicLit)
+		if !ok {
+			sfail("countval(N, ...): N must be a literal loop ordinal")
+		}
+		ord, _ := strconv.Atoi(lit.Value)
+		r := e.frame.rangeOfLoop(ord)
+		if r == nil {
+			sfail("loop %d does not range over a map", ord)
+		}
+		mt := r.X.Type().Underlying().(*types.Map)
+		keyT = mt.Key()
+		vn := e.frame.visitedName(r)
+		u.scalar(vn, "(Array "+u.D.SortOf(keyT)+" Bool)")
+		set = u.hget(e.heap, vn)
+		if st, ok := e.frame.mapSteps[set]; ok {
+			step = &st
+		}
+	} else {
+		m := e.expr(n.Args[0])
+		mt, ok := m.Typ.Underlying().(*types.Map)
+		if !ok {
+			sfail("countvalall(m, ...): m must be a map")
+		}
+		keyT = mt.Key()
+		dom, _ := u.mapArrs(mt)
+		set = ite("(= "+m.T+" 0)", "((as const (Array "+u.D.SortOf(keyT)+" Bool)) false)", sel(u.hget(e.heap, dom), m.T))
+	}
+	ks := u.D.SortOf(keyT)
+	// P[k] = valexpr(k)
+	bv := sym(fmt.Sprintf("%s?%d.%d", id.Name, e.depth, u.nextBound()))
+	c := e.clone()
+	c.vars[id.Name] = Val{T: bv, Typ: keyT}
+	val := c.expr(n.Args[2])
+	if u.D.SortOf(val.Typ) != "Int" {
+		sfail("%s: the counted expression must be integer-valued", kind)
+	}
+	P := u.fresh("cntproj", "(Array "+ks+" Int)")
+	u.emit(fmt.Sprintf("(assert (forall ((%s %s)) (! (= (select %s %s) %s) :pattern ((select %s %s)))))", bv, ks, P, bv, val.T, P, bv))
+	cnt := u.D.Fun("cnt:"+shortType(keyT), []string{"(Array " + ks + " Bool)", "(Array " + ks + " Int)", "Int"}, "Int")
+	// (named by constants rather than macros: the terms occur in instantiation patterns)
+	setD := u.fresh("cntset", "(Array "+ks+" Bool)")
+	u.emit("(assert (= " + setD + " " + set + "))")
+	u.emit(fmt.Sprintf("(assert (forall ((v Int)) (! (>= (%s %s %s v) 0) :pattern ((%s %s %s v)))))", cnt, setD, P, cnt, setD, P))
+	empty := "((as const (Array " + ks + " Bool)) false)"
+	u.emit(fmt.Sprintf("(assert (forall ((v Int)) (! (= (%s %s %s v) 0) :pattern ((%s %s %s v)))))", cnt, empty, P, cnt, empty, P))
+	if step != nil {
+		// set = ite(ok, store(old, k0, true), old) and k0 is not in old when ok
+		oldD := u.fresh("cntold", "(Array "+ks+" Bool)")
+		u.emit("(assert (= " + oldD + " " + step.old + "))")
+		u.emit(fmt.Sprintf("(assert (forall ((v Int)) (! (= (%s %s %s v) (+ (%s %s %s v) (ite (and %s (= (select %s %s) v)) 1 0))) :pattern ((%s %s %s v)))))",
+			cnt, setD, P, cnt, oldD, P, step.ok, P, step.key, cnt, setD, P))
+	}
+	v := e.expr(n.Args[3])
+	return Val{T: app(cnt, setD, P, v.T), Typ: tInt}
 }
